@@ -81,6 +81,21 @@ def handle (j : Json) : Json :=
     match pilotStateCb (nOf "task") ts ps with
     | .error e => jl [Json.str "err", Json.str (errName e)]
     | .ok (ts', pubs) => Json.mkObj [("tasks", jl (ts'.map jtask)), ("pubs", jl (pubs.map jn))]
+  else if op == "pilotcbs" then
+    -- several invocations of the callback, one after the other
+    let ts := (jarr j "tasks").map taskOf
+    let calls := (jarr j "calls").map (fun c => (asArr c).map (fun p =>
+                   ((asArr p).headD Json.null |> asNat, ofName "pilot" (asStr ((asArr p).getD 1 Json.null)))))
+    let r := calls.foldl (fun (acc : Except Err (Tasks × List Nat)) ps =>
+               match acc with
+               | .error e => .error e
+               | .ok (ts, pubs) =>
+                 match pilotStateCb (nOf "task") ts ps with
+                 | .error e => .error e
+                 | .ok (ts', pubs') => .ok (ts', pubs ++ pubs')) (.ok (ts, []))
+    match r with
+    | .error e => jl [Json.str "err", Json.str (errName e)]
+    | .ok (ts', pubs) => Json.mkObj [("tasks", jl (ts'.map jtask)), ("pubs", jl (pubs.map jn))]
   else if op == "runpilot" then
     let r := runPilot (nOf "pilot") (ofName "pilot" (jstr j "cur")) ((jarr j "seq").map (fun x => ofName "pilot" (asStr x)))
     Json.mkObj [("state", jst "pilot" r.1), ("cbs", jsts "pilot" r.2)]
